@@ -1,3 +1,5 @@
+//go:build verif
+
 package checks
 
 // C15 — full-stack piece: the real p2p.Server on loopback TCP with the real ProtocolManager as its
